@@ -95,3 +95,60 @@ add('DEFAULT', Rule('X-DEFAULT', 'T::default()', 'default_of::<T>()'))
 
 # X-ERR: error values are opaque (only Ok/Err matters to the contracts).
 add('ERR', Rule('X-ERR', 'Error::msg($a:a)', 'Error::msg_opaque()'))
+
+
+# X-WIN: `W.consume(n)` / `W.produce(n, ts)` act on the stream through an Arc inside the window; a Verus
+# postcondition can only speak about a parameter, so the stream the window came from is named explicitly.
+add('WIN', Rule('X-WIN', '__placeholder_never_matches__', ''))
+
+
+def win_rules(text):
+    from rtok import tokenize
+    toks = [t.text for t in tokenize(text)]
+    bind = {}
+    n = len(toks)
+    for i in range(n):
+        if toks[i] != 'let':
+            continue
+        j = i + 1
+        names = []
+        if toks[j] == '(':
+            # let (W, TS) = self.F.read_buf()?
+            if toks[j + 1] == 'mut':
+                j += 1
+            names = [toks[j + 1]]
+            while toks[j] != ')':
+                j += 1
+            j += 1
+        else:
+            if toks[j] == 'mut':
+                j += 1
+            names = [toks[j]]
+            j += 1
+        if toks[j:j + 4] == ['=', 'self', '.', toks[j + 3]] and toks[j + 4] == '.' and toks[j + 5] in ('read_buf', 'write_buf'):
+            f = toks[j + 3]
+            w = names[0]
+            if w in bind and bind[w] != f:
+                raise ValueError('window %s is bound to two streams (%s, %s)' % (w, bind[w], f))
+            bind[w] = f
+    out = []
+    for w, f in bind.items():
+        out.append(Rule('X-WIN', '%s.consume($n:e)' % w, 'self.%s.consume(%s, $n)' % (f, w)))
+        out.append(Rule('X-WIN', '%s.produce($n:e, $t:e)' % w, 'self.%s.produce(%s, $n, $t)' % (f, w)))
+    return out
+
+
+# X-COPY: `&mut [T]` returned from a method and then indexed is outside the installed Verus.
+add('COPY',
+    Rule('X-COPY', '$o:i.slice()[..$k:e].copy_from_slice(&$i:i.slice()[..$k2:e])', '$o.copy_prefix_from(&$i, $k)'),
+    Rule('X-COPY', '$o:i.slice()[..$k:e].fill($v:e)', '$o.fill_prefix($k, $v)'),
+    Rule('X-COPY', '$o:i.slice().fill($v:e)', '$o.fill_all($v)'),
+    Rule('X-COPY', '$o:i.slice()[$e:e] = $v:e;', '$o.set($e, $v);'))
+
+# X-RET: no `dyn` in Verus; the id identifies the field.
+add('RET', Rule('X-RET', 'BlockRet::WaitForStream(&self.$f:i, $n:e)', 'BlockRet::WaitForStream(self.$f.wait_id(), $n)'))
+
+# X-TAGFILTER: iterator adapters are outside Verus.
+add('TAGFILTER',
+    Rule('X-TAGFILTER', '$ts:i.into_iter().filter(|t| t.pos() < $n:e).collect()', 'filter_tags_before($ts, $n)'),
+    Rule('X-TAGFILTER', '$ts:i.iter().filter(|t| t.pos() < $n:e).cloned().collect()', 'filter_tags_before_ref(&$ts, $n)'))
